@@ -44,6 +44,9 @@ def cases(tier, seed):
                             if tier == "quick" and bag and (rs + ts) % 2:
                                 continue
                             out.append(dict(kind="train", ubm=u, tset=ts, rs=rs, upd=upd, floor=fl, bag=bag, K=K_IT[tier], seed=seed))
+                            if fl == 1e-10 and not bag and (rs + ts) % 2 == 0:
+                                # a component with a small fractional occupation and a larger i-vector dimension
+                                out.append(dict(kind="train", ubm=u, tset=ts, rs=rs, upd=upd, floor=fl, bag=False, K=K_IT[tier], seed=seed, dim_t=6, tiny=True))
     return out
 
 
@@ -157,8 +160,12 @@ def _train_case(case, c, s, o):
     stats = [allst[:3], allst[:5], allst[1:6], [allst[0], allst[0], allst[3], allst[2]]][ts]
     if case["bag"] and (case["rs"] + ts) % 2 == 0:
         stats = (stats * 5)[:13]  # 13 partitions: odd counts at several levels of any tree reduction
+    if case.get("tiny"):
+        stats = copy.deepcopy(stats)
+        for st in stats:
+            st.n[0], st.sum_px[0], st.sum_pxx[0] = st.n[0] * 2.0**-11, st.sum_px[0] * 2.0**-11, st.sum_pxx[0] * 2.0**-11
     tup = [(np.asarray(st.n, float), np.asarray(st.sum_px, float), np.asarray(st.sum_pxx, float)) for st in stats]
-    t = 2
+    t = case.get("dim_t", 2)
     floor = case["floor"] * (s * s if case["floor"] > 1e-6 else 1.0)
     tags = dict(upd=case["upd"], bag=case["bag"])
 
@@ -201,7 +208,7 @@ def _train_case(case, c, s, o):
         L.append(Lk)
         traj.append((Tk, sk))
         c.states += 1
-    return rose and not any_floor, "t|%d|%d|%d|%s|%s|%s" % (case["ubm"], ts, case["rs"], case["upd"], case["floor"], case["bag"])
+    return rose and not any_floor, "t|%d|%d|%d|%s|%s|%s|%s" % (case["ubm"], ts, case["rs"], case["upd"], case["floor"], case["bag"], case.get("dim_t"))
 
 
 def run_case(case):
